@@ -162,13 +162,20 @@ fn must_quote(s: &[u8]) -> bool {
     let is_doc_marker = |s: &[u8]| matches!(s, b"---" | b"...");
 
     // number overapproximation
-    let is_pos_num = |s: &[u8]| s.first().is_some_and(u8::is_ascii_digit);
-    let is_num = |s: &[u8]| is_pos_num(s.strip_prefix(b"-").unwrap_or(s));
+    // numbers may start with a sign and with a dot, like `+1`, `.5`, `-.5`, and `-.inf`
+    let unsigned = s.strip_prefix(b"-").or_else(|| s.strip_prefix(b"+"));
+    let unsigned = unsigned.unwrap_or(s);
+    let is_digit = |c: Option<&u8>| c.is_some_and(u8::is_ascii_digit);
+    let is_num = is_digit(unsigned.first()) || (unsigned.starts_with(b".") && is_digit(unsigned.get(1)));
+
+    // trailing white space is not part of a plain scalar
+    let trailing_space = s.last().is_some_and(|c| b" \t".contains(c));
 
     s == b"~"
         || is_doc_marker(s)
-        || is_num(s)
-        || kws.iter().any(|ss| ss.contains(&s))
+        || is_num
+        || kws.iter().any(|ss| ss.contains(&s) || ss.contains(&unsigned))
+        || trailing_space
         || !ns_plain_one_line(s)
 }
 
